@@ -95,6 +95,94 @@ def _lean_str(x):
     return '"' + x.replace("\\", "\\\\").replace('"', '\\"') + '"'
 
 
+# ---- mutable state / caches / in-place mutation sites of pyanalyze/options.py (obligation options_state_registered)
+MUT_METHODS = {"append", "extend", "update", "add", "setdefault", "pop", "clear", "insert", "remove", "sort", "popitem", "discard", "appendleft"}
+CACHE_DECOS = {"lru_cache", "cache", "cached_property", "cached_per_instance", "memoize", "cached"}
+MUT_TYPES = {"dict", "list", "set", "Dict", "List", "Set", "defaultdict", "MutableMapping", "MutableSequence", "MutableSet", "deque", "OrderedDict"}
+
+def _name_of(n):
+    if isinstance(n, ast.Name): return n.id
+    if isinstance(n, ast.Attribute): return _name_of(n.value) + "." + n.attr
+    if isinstance(n, ast.Call): return _name_of(n.func) + "()"
+    if isinstance(n, ast.Subscript): return _name_of(n.value) + "[]"
+    return type(n).__name__
+
+def _is_mut_type(ann):
+    for n in ast.walk(ann):
+        if isinstance(n, ast.Name) and n.id in MUT_TYPES: return True
+        if isinstance(n, ast.Attribute) and n.attr in MUT_TYPES: return True
+    return False
+
+def _is_mut_value(v):
+    if isinstance(v, (ast.Dict, ast.List, ast.Set, ast.DictComp, ast.ListComp, ast.SetComp)): return True
+    if isinstance(v, ast.Call):
+        f = _name_of(v.func).split(".")[-1]
+        if f in ("dict", "list", "set", "defaultdict", "deque", "OrderedDict"): return True
+        if f == "field":
+            return any(k.arg == "default_factory" for k in v.keywords)
+    return False
+
+def scan_state(src):
+    tree = ast.parse(src)
+    out = []
+    def in_scope(qual, node):
+        for ch in ast.iter_child_nodes(node):
+            if isinstance(ch, ast.ClassDef):
+                q = (qual + "." if qual else "") + ch.name
+                for st in ch.body:
+                    if isinstance(st, ast.AnnAssign) and isinstance(st.target, ast.Name):
+                        if (st.value is not None and _is_mut_value(st.value)) or (_is_mut_type(st.annotation) and "ClassVar" not in ast.dump(st.annotation) and st.value is not None):
+                            out.append("state %s.%s" % (q, st.target.id))
+                        elif st.value is not None and _is_mut_value(st.value):
+                            out.append("state %s.%s" % (q, st.target.id))
+                        elif "ClassVar" in ast.dump(st.annotation) and _is_mut_type(st.annotation):
+                            out.append("state %s.%s" % (q, st.target.id))
+                    elif isinstance(st, ast.Assign) and _is_mut_value(st.value):
+                        for t in st.targets:
+                            out.append("state %s.%s" % (q, _name_of(t)))
+                in_scope(q, ch)
+            elif isinstance(ch, (ast.FunctionDef, ast.AsyncFunctionDef)):
+                q = (qual + "." if qual else "") + ch.name
+                for d in ch.decorator_list:
+                    dn = _name_of(d).replace("()", "").split(".")[-1]
+                    if dn in CACHE_DECOS:
+                        out.append("cache %s @%s" % (q, dn))
+                for n in ast.walk(ch):
+                    # in-place mutation of something reachable from an object (attribute / subscript of attribute)
+                    if isinstance(n, ast.AugAssign) and isinstance(n.target, (ast.Attribute, ast.Subscript)):
+                        out.append("mutate %s: %s %s=" % (q, _name_of(n.target), type(n.op).__name__))
+                    elif isinstance(n, (ast.Assign, ast.AnnAssign)):
+                        ts = n.targets if isinstance(n, ast.Assign) else [n.target]
+                        for t in ts:
+                            if isinstance(t, ast.Subscript) and isinstance(t.value, ast.Attribute):
+                                out.append("mutate %s: %s[...] =" % (q, _name_of(t.value)))
+                            if isinstance(t, ast.Attribute) and not (isinstance(t.value, ast.Name) and t.value.id == "self" and ch.name in ("__init__", "__post_init__")):
+                                out.append("mutate %s: %s =" % (q, _name_of(t)))
+                    elif isinstance(n, ast.Call):
+                        f = n.func
+                        if isinstance(f, ast.Attribute) and f.attr in MUT_METHODS and isinstance(f.value, (ast.Attribute, ast.Subscript)):
+                            out.append("mutate %s: %s.%s()" % (q, _name_of(f.value), f.attr))
+                        fn = _name_of(f)
+                        if fn.split(".")[-1] in ("iadd", "ior", "iconcat", "setattr", "__setattr__", "__iadd__"):
+                            out.append("mutate %s: %s()" % (q, fn))
+                        if fn.split(".")[-1] == "reduce" and len(n.args) < 3 and not any(k.arg == "initial" for k in n.keywords):
+                            out.append("mutate? %s: reduce without initial value" % q)
+                        for arg in n.args:
+                            if isinstance(arg, (ast.Attribute, ast.Name)) and _name_of(arg).split(".")[-1] in ("iadd", "ior", "iconcat", "__iadd__"):
+                                out.append("mutate %s: %s passed to %s" % (q, _name_of(arg), fn))
+                        if fn.split(".")[-1] == "replace" and fn in ("replace", "dataclasses.replace"):
+                            out.append("copy %s: dataclasses.replace" % q)
+                in_scope(q, ch)
+    in_scope("", tree)
+    for st in tree.body:   # module-level mutable globals
+        if isinstance(st, ast.Assign) and _is_mut_value(st.value):
+            for t in st.targets: out.append("state <module>.%s" % _name_of(t))
+        if isinstance(st, ast.AnnAssign) and st.value is not None and _is_mut_value(st.value):
+            out.append("state <module>.%s" % _name_of(st.target))
+    return sorted(set(out))
+
+
+
 def translate(ctx):
     """Generated/EmitConsts.lean: the comment text, the look-ahead of the trailing-comment regex, and the codes the
     end-of-file passes are called with, read from the live pyanalyze. Proofs/C11.lean proves they are the ones the
@@ -147,9 +235,14 @@ def translate(ctx):
         "def bareIgnoreCode : String := %s\n\n"
         "/-- the regex `BaseNodeVisitor._lines` splits the file contents with -/\n"
         "def linesSplitRegex : String := %s\n\n"
+        "/-- AST scan of pyanalyze/options.py: class attributes / dataclass fields holding a mutable container, caching\n"
+        "decorators, in-place mutation sites (subscript / attribute assignment, augmented assignment, mutating method\n"
+        "calls on attributes, in-place operators, reduce without an initial value), dataclasses.replace copies -/\n"
+        "def optionsState : List String := [%s]\n\n"
         "end Pya.C11.Gen\n"
     ) % (_lean_str(ic), _lean_str(suffixes[0]), _lean_str(codes["show_errors_for_unused_ignores"]),
-         _lean_str(codes["show_errors_for_bare_ignores"]), _lean_str(splits[0]))
+         _lean_str(codes["show_errors_for_bare_ignores"]), _lean_str(splits[0]),
+         ",\n  ".join(_lean_str(x) for x in scan_state(open(os.path.join(pya.REPO, "pyanalyze", "options.py")).read())))
     lean.write_if_changed(os.path.join(lean.LEAN, "PyaModel", "Generated", "EmitConsts.lean"), text)
 
 
@@ -187,7 +280,7 @@ def _classes():
 _NCV = _REC = None
 _KW = {}
 _MODN = [0]
-_PKG = re.compile(r"c11pkg\.sub\.m\d+")
+_PKG = re.compile(r"c11pkg2?(?:\.(?:sub|subx|deep))*\.m\d+b?")
 
 
 def norm(text):
@@ -246,7 +339,7 @@ def get_kwargs(ctx, route, off):
     return kw
 
 
-def real_run(ctx, src, off=(), route="cmd", kwargs=None, want_visitor=False):
+def real_run(ctx, src, off=(), route="cmd", kwargs=None, want_visitor=False, modname=None):
     """Check `src` with real pyanalyze. Returns (failures, raw stream, used_ignores, lines).
     failures: (code, lineno, col, message); raw: dicts; node identities renumbered by first appearance;
     lines: what the visitor's own _lines() yields for the source (without the "\n" it appends)."""
@@ -254,7 +347,7 @@ def real_run(ctx, src, off=(), route="cmd", kwargs=None, want_visitor=False):
     if kwargs is None:
         kwargs = get_kwargs(ctx, route, off)
     _MODN[0] += 1
-    name = "c11pkg.sub.m%d" % _MODN[0]
+    name = modname or "c11pkg.sub.m%d" % _MODN[0]
     tree = ast.parse(src)
     mod = make_module(src, {"__name__": name})
     sys.modules[name] = mod
@@ -899,7 +992,18 @@ LAYER_PROGRAM = ["def g(): return undefined_z", "import os", "def h(a: int) -> N
                  "    return None"]
 
 
-def oracle_enabled(a, allflag, default):
+# the module paths of a run, relative to the module the stack's overrides are written for (kind A), and the
+# override layers that apply to each
+KINDS = {
+    "A": ("c11pkg.sub.m%d", ("ovr_exact", "ovr_parent", "ovr_grand", "ext_ovr")),   # the override's module
+    "B": ("c11pkg.sub.m%db", ("ovr_parent", "ovr_grand")),                          # a sibling
+    "C": ("c11pkg.sub.deep.m%d", ("ovr_parent", "ovr_grand")),                      # deeper under the parent
+    "D": ("c11pkg.subx.m%d", ("ovr_other", "ovr_grand")),                           # the "unrelated" package
+    "E": ("c11pkg2.m%d", ()),                                                       # outside everything
+}
+
+
+def oracle_enabled(a, allflag, default, kind="A"):
     """The documented precedence, written out: command line (-d, -e, then --enable-all / --disable-all), main file
     (most specific applicable override, else top level), extended file (override, else top level), default."""
     if a.get("cmd") is not None:
@@ -908,7 +1012,11 @@ def oracle_enabled(a, allflag, default):
         return True
     if allflag == "D":
         return False
-    for layer in ("ovr_exact", "ovr_parent", "ovr_grand", "top", "ext_ovr", "ext"):   # ovr_other never applies
+    applicable = KINDS[kind][1]
+    for layer in ("ovr_exact", "ovr_parent", "ovr_other", "ovr_grand", "top", "ext_ovr", "ext"):
+        if layer.startswith("ovr") or layer == "ext_ovr":
+            if layer not in applicable:
+                continue
         if a.get(layer) is not None:
             return a[layer]
     return default
@@ -946,28 +1054,42 @@ def write_stack(ctx, rng, assign, modname, tag):
     return main, model
 
 
-def layers_run(ctx, rng, base, assign, allflag, route, tag):
-    """One real run of `base` under the stack. Returns (failures, raw, {code: effective enabled-ness read from the
-    visitor's options}, module name, model encoding of the files)."""
+def _fails_of(v):
+    return [(f["code"].name if f.get("code") is not None else None, f.get("lineno"), f.get("col_offset"),
+             norm(f.get("description", "")).split("\n")[0]) for f in v.all_failures]
+
+
+def layers_run(ctx, rng, base, assign, allflag, route, tag, kinds=("A",)):
+    """One real run over the modules `kinds` (in that order) of `base` under the stack. Returns
+    (per module: (kind, module name, failures, raw), the run's shared Options object, model encoding of the files)."""
     from pathlib import Path
     E = pya.ErrorCode
     enable = [c for c, a in assign.items() if a.get("cmd") is True]
     disable = [c for c, a in assign.items() if a.get("cmd") is False]
     src = "\n".join(base) + "\n"
-    if route == "argv":     # the real parser and main(): files on disk, module imported from a package directory
-        _MODN[0] += 1
-        modname = "c11pkg.sub.m%d" % _MODN[0]
-        pkg = os.path.join(ctx.scratch, "c11pkg", "sub")
-        os.makedirs(pkg, exist_ok=True)
-        for d in (os.path.dirname(pkg), pkg):
-            open(os.path.join(d, "__init__.py"), "a").close()
-        path = "c11pkg/sub/m%d.py" % _MODN[0]      # relative to the scratch directory: the importer derives the
-        with open(os.path.join(ctx.scratch, path), "w") as f:   # module name c11pkg.sub.mN from the package layout
-            f.write(src)
-        main, model = write_stack(ctx, rng, assign, modname, tag)
+    _MODN[0] += 1
+    N = _MODN[0]
+    names = {k: KINDS[k][0] % N for k in KINDS}
+    main, model = write_stack(ctx, rng, assign, names["A"], tag)
+    per = []
+    if route == "argv":     # the real parser and main(): files on disk, modules imported from package directories
+        paths = {}
+        for k in kinds:
+            rel = names[k].replace(".", "/") + ".py"
+            d = os.path.dirname(os.path.join(ctx.scratch, rel))
+            os.makedirs(d, exist_ok=True)
+            while os.path.realpath(d) != os.path.realpath(ctx.scratch):
+                open(os.path.join(d, "__init__.py"), "a").close()
+                d = os.path.dirname(d)
+            with open(os.path.join(ctx.scratch, rel), "w") as f:
+                f.write(src)
+            paths[k] = rel
+        # _run_on_files sorts the file names: "./" prefixes put the modules into the wanted order
+        ordered = ["./" * (len(kinds) - 1 - i) + paths[k] for i, k in enumerate(kinds)]
+        assert sorted(ordered) == ordered
         argv = ["pyanalyze"] + (["--config-file", main] if main else [])
         argv += {"E": ["--enable-all"], "D": ["--disable-all"], None: []}[allflag]
-        argv += [x for c in enable for x in ("-e", c)] + [x for c in disable for x in ("-d", c)] + [path]
+        argv += [x for c in enable for x in ("-e", c)] + [x for c in disable for x in ("-d", c)] + ordered
         del _REC._last[:]
         old_argv, old_cwd = sys.argv, os.getcwd()
         try:
@@ -981,22 +1103,24 @@ def layers_run(ctx, rng, base, assign, allflag, route, tag):
             os.chdir(old_cwd)
             if ctx.scratch in sys.path:
                 sys.path.remove(ctx.scratch)
-            for k in [k for k in sys.modules if k.startswith("c11pkg.sub.m")]:
+            for k in [k for k in sys.modules if _PKG.fullmatch(k)]:
                 sys.modules.pop(k, None)
-        vs = [v for v in _REC._last if v.filename.endswith("m%d.py" % _MODN[0])]
-        if len(vs) != 1:
-            raise RuntimeError("argv route: expected one visitor for %s, got %d" % (path, len(vs)))
-        v = vs[0]
-        fails = [(f["code"].name if f.get("code") is not None else None, f.get("lineno"), f.get("col_offset"),
-                  norm(f.get("description", "")).split("\n")[0]) for f in v.all_failures]
-        raw = encode_raw(v._rec[:getattr(v, "_rec_visit_end", len(v._rec))])
-        real_name = v.module.__name__ if v.module is not None else None
-        if real_name != modname:
-            raise RuntimeError("argv route: module imported as %r, expected %r" % (real_name, modname))
-    else:                   # settings dict (what main() builds) + config_file through prepare_constructor_kwargs
-        modname = "c11pkg.sub.m%d" % (_MODN[0] + 1)
-        main, model = write_stack(ctx, rng, assign, modname, tag)
-        if allflag == "E":
+        seen_order = []
+        for k in kinds:
+            vs = [v for v in _REC._last if v.filename.endswith(paths[k])]
+            if len(vs) != 1:
+                raise RuntimeError("argv route: expected one visitor for %s, got %d" % (paths[k], len(vs)))
+            v = vs[0]
+            real_name = v.module.__name__ if v.module is not None else None
+            if real_name != names[k]:
+                raise RuntimeError("argv route: module imported as %r, expected %r" % (real_name, names[k]))
+            seen_order.append(_REC._last.index(v))
+            per.append((k, names[k], _fails_of(v), encode_raw(v._rec[:getattr(v, "_rec_visit_end", len(v._rec))])))
+        if seen_order != sorted(seen_order):
+            raise RuntimeError("argv route: modules were not checked in the requested order")
+        options = v.checker.options
+    else:                   # settings dict (what main() builds) + config_file through prepare_constructor_kwargs;
+        if allflag == "E":  # one Checker, one visitor (checker.options.for_module) per module
             settings = {c: True for c in E}
         elif allflag == "D":
             settings = {c: False for c in E}
@@ -1010,16 +1134,21 @@ def layers_run(ctx, rng, base, assign, allflag, route, tag):
         if main:
             kw["config_file"] = Path(main)
         kwargs = _NCV.prepare_constructor_kwargs(kw)
-        fails, raw, _, _, v = real_run(ctx, src, kwargs=kwargs, want_visitor=True)
-    eff = {c: bool(v.options.is_error_code_enabled(getattr(E, c))) for c in assign}
-    return fails, raw, eff, modname, model
+        for k in kinds:
+            fails, raw, _, _, v = real_run(ctx, src, kwargs=kwargs, want_visitor=True, modname=names[k])
+            per.append((k, names[k], fails, raw))
+        options = kwargs["checker"].options
+    return per, options, model, names
 
 
 def run_layers(ctx, with_model=True):
-    """Every combination of routes on the same code: each code of a program gets a value (absent / on / off) in each
-    layer — config top level, extended config, per-module override for the module / its parent / its grandparent / an
-    unrelated package, an override in the extended file, -e / -d — plus --enable-all / --disable-all, through the real
-    routes. Property: D(P, stack) == [d in D(P, everything on) : precedence(code d)] (oracle_enabled)."""
+    """Every combination of routes on the same code, over several modules of one run: each code of a program gets a
+    value (absent / on / off) in each layer — config top level, extended config, per-module override for the module /
+    its parent / its grandparent / an unrelated package, an override in the extended file, -e / -d — plus
+    --enable-all / --disable-all, through the real routes; the run checks one to three modules with different module
+    paths (the override's module, a sibling, a deeper one, one in the unrelated package, one outside) in a chosen order.
+    Property: for every module of the run, D(module, stack) == [d in D(module, everything on) : precedence(code d)]
+    (oracle_enabled) — whatever else the run checked, in every order."""
     from pyanalyze.options import ConfigOption
     global _NCV, _REC
     if _NCV is None:
@@ -1027,16 +1156,27 @@ def run_layers(ctx, with_model=True):
     rng = ctx.rng
     E = pya.ErrorCode
     dflt = lambda c: bool(ConfigOption.registry[c].default_value)
-    jobs = []       # (base, assign, allflag, route)
+    jobs = []       # (base, assign, allflag, route, kinds)
 
     def baseline(base, route):
-        fails, raw, _, _, _ = layers_run(ctx, rng, base, {}, "E", route, "base")
-        return fails
+        per, _, _, _ = layers_run(ctx, rng, base, {}, "E", route, "base")
+        return per[0][2]
+
+    def pick_kinds():
+        r = rng.random()
+        if r < 0.35:
+            return [("A",)]
+        ks = rng.sample(sorted(KINDS), 2 if r < 0.75 else 3)
+        if "A" not in ks and rng.random() < 0.7:
+            ks[0] = "A"
+        perms = list(itertools.permutations(ks))
+        rng.shuffle(perms)
+        return perms[:2]          # the same stack, the same modules, two different orders
 
     # 1. exhaustive: one on-by-default and one off-by-default code of LAYER_PROGRAM, all 3^6 joint assignments
     base0 = LAYER_PROGRAM
-    D0 = {"kwargs": baseline(base0, "kwargs")}
-    codes0 = sorted({d[0] for d in D0["kwargs"]})
+    D0 = baseline(base0, "kwargs")
+    codes0 = sorted({d[0] for d in D0})
     on = [c for c in codes0 if dflt(c)]
     off = [c for c in codes0 if not dflt(c)]
     if not on or not off:
@@ -1045,7 +1185,7 @@ def run_layers(ctx, with_model=True):
     pair = [on[0], off[0]]
     exh = [(vals, allflag) for vals in itertools.product([None, True, False], repeat=len(EXH_LAYERS)) for allflag in (None, "E", "D")]
     ctx.extra["layers_exhaustive"] = "codes %s of LAYER_PROGRAM x all %d assignments of layers %s x all-flag" % (pair, len(exh), EXH_LAYERS)
-    cap = ctx.n(40, len(exh))
+    cap = ctx.n(32, len(exh))
     if len(exh) > cap:
         exh = rng.sample(exh, cap)
         ctx.extra["layers_exhaustive"] += "; sampled down to %d by the seed" % cap
@@ -1057,17 +1197,22 @@ def run_layers(ctx, with_model=True):
                 assign[c] = dict(a, **{l: rng.choice([None, None, True, False]) for l in ("ovr_grand", "ovr_other", "ext_ovr")})
             else:
                 assign[c] = {l: rng.choice([None, None, True, False]) for l in PER_CODE_LAYERS}
-        jobs.append((base0, assign, allflag, "argv" if rng.random() < 0.25 else "kwargs"))
+        for kinds in pick_kinds()[:1]:
+            jobs.append((base0, assign, allflag, "argv" if rng.random() < 0.25 else "kwargs", kinds))
     # 2. random programs, every code its own random value in every layer
     PROFILE[0] = "std"
     for _ in range(ctx.n(2, 8)):
         base = gen_program(rng, small=True)
-        for _ in range(ctx.n(5, 15)):
-            jobs.append((base, None, rng.choice([None, None, "E", "D"]), "argv" if rng.random() < 0.3 else "kwargs"))
+        for _ in range(ctx.n(3, 10)):
+            route = "argv" if rng.random() < 0.3 else "kwargs"
+            allflag = rng.choice([None, None, "E", "D"])
+            assign_seed = rng.random()
+            for kinds in pick_kinds():
+                jobs.append((base, ("random", assign_seed), allflag, route, kinds))
     # ---- run
     baselines = {}
     results = []
-    for idx, (base, assign, allflag, route) in enumerate(jobs):
+    for idx, (base, assign, allflag, route, kinds) in enumerate(jobs):
         key = (tuple(base), route)
         if key not in baselines:
             try:
@@ -1080,70 +1225,88 @@ def run_layers(ctx, with_model=True):
         if not Dall:
             continue
         codes = sorted({d[0] for d in Dall})
-        if assign is None:
-            assign = {c: {l: rng.choice([None, None, True, False]) for l in PER_CODE_LAYERS} for c in codes}
-        fails, raw, eff, modname, model_files = layers_run(ctx, rng, base, assign, allflag, route, "r%d" % idx)
-        exp = [d for d in Dall if oracle_enabled(assign.get(d[0], {}), allflag, dflt(d[0]))]
-        case = {"layers": {"program": base, "assign": assign, "all": allflag, "route": route}}
-        ctx.count(1, layers=1, **{"layers_route_" + route: 1})
+        if isinstance(assign, tuple):       # the same random assignment for the two orders of one stack
+            import random as _random
+            r2 = _random.Random(assign[1])
+            assign = {c: {l: r2.choice([None, None, True, False]) for l in PER_CODE_LAYERS} for c in codes}
+        per, options, model_files, names = layers_run(ctx, rng, base, assign, allflag, route, "r%d" % idx, kinds)
+        # one Options object, (module, code) pairs in shuffled order, twice
+        pairs = [(k, c) for k in sorted(KINDS) for c in codes] * 2
+        rng.shuffle(pairs)
+        asked = [(k, c, bool(options.for_module(tuple(names[k].split("."))).is_error_code_enabled(getattr(E, c)))) for k, c in pairs]
+        case = {"layers": {"program": base, "assign": assign, "all": allflag, "route": route, "modules": list(kinds)}}
+        ctx.count(1, layers=1, **{"layers_route_" + route: 1, "layers_modules_%d" % len(kinds): 1})
         ctx.nontriv("layers:" + json.dumps(case, sort_keys=True, default=str))
         if idx % 97 == 0:
             ctx.sample({"layers": {"assign": {c: {k: v for k, v in a.items() if v is not None} for c, a in assign.items()},
-                                   "all": allflag, "route": route, "D": sorted({d[0] for d in fails})}})
+                                   "all": allflag, "route": route, "modules": [n for _, n, _, _ in per],
+                                   "D": {n: sorted({d[0] for d in f}) for _, n, f, _ in per}}})
         what = None
-        if sorted(fails, key=repr) != sorted(exp, key=repr):
-            wrong = sorted({d[0] for d in fails if d not in exp} | {d[0] for d in exp if d not in fails})
-            c = wrong[0]
-            what = "layers %s, all=%s (%s route): code %s is %s although the precedence says %s (default %s)" % (
-                {k: v for k, v in assign.get(c, {}).items() if v is not None}, allflag, route, c,
-                "reported" if any(d[0] == c for d in fails) else "not reported",
-                "on" if oracle_enabled(assign.get(c, {}), allflag, dflt(c)) else "off", dflt(c))
-        results.append((case, assign, allflag, modname, model_files, eff, codes, fails, raw, what))
+        for k, name, fails, raw in per:
+            exp = [d for d in Dall if oracle_enabled(assign.get(d[0], {}), allflag, dflt(d[0]), k)]
+            if sorted(fails, key=repr) != sorted(exp, key=repr) and what is None:
+                wrong = sorted({d[0] for d in fails if d not in exp} | {d[0] for d in exp if d not in fails})
+                c = wrong[0]
+                what = "module %s (%s of %s in one run), layers %s, all=%s (%s route): code %s is %s although the precedence says %s (default %s)" % (
+                    name, k, "".join(kinds), {x: v for x, v in assign.get(c, {}).items() if v is not None}, allflag, route, c,
+                    "reported" if any(d[0] == c for d in fails) else "not reported",
+                    "on" if oracle_enabled(assign.get(c, {}), allflag, dflt(c), k) else "off", dflt(c))
+        for k, c, got in asked:
+            if got != oracle_enabled(assign.get(c, {}), allflag, dflt(c), k) and what is None:
+                what = "one Options object: for_module(%s).is_error_code_enabled(%s) is %s, the precedence says %s (layers %s, all=%s)" % (
+                    names[k], c, got, not got, {x: v for x, v in assign.get(c, {}).items() if v is not None}, allflag)
+        results.append((case, assign, allflag, names, model_files, codes, per, asked, what))
     if not with_model:
         for case, *_, what in results:
             if what:
                 ctx.candidate(case, what, cls=None, conforms=False, stream="layers")
         return
     qs, owners = [], []
-    for ri, (case, assign, allflag, modname, model_files, eff, codes, fails, raw, what) in enumerate(results):
+    for ri, (case, assign, allflag, names, model_files, codes, per, asked, what) in enumerate(results):
         enable = [c for c, a in assign.items() if a.get("cmd") is True]
         disable = [c for c, a in assign.items() if a.get("cmd") is False]
-        for c in codes:
-            qs.append("L|%s|%s|%s|%s|%s|%s|%d" % (allflag or "-", ",".join(enable) or "-", ",".join(disable) or "-", model_files,
-                                                  modname, c, dflt(c)))
-            owners.append((ri, c))
+        for k in sorted(KINDS):
+            for c in codes:
+                qs.append("L|%s|%s|%s|%s|%s|%s|%d" % (allflag or "-", ",".join(enable) or "-", ",".join(disable) or "-", model_files,
+                                                      names[k], c, dflt(c)))
+                owners.append((ri, k, c))
     outs = lean.run_driver("C11", qs) if qs else []
     model_en = {}
-    for (ri, c), o in zip(owners, outs):
-        d = dict(x.split("=", 1) for x in o.split(" ")) if o != "bad-op" else {"en": "bad-op", "spec": "bad-op"}
-        model_en[(ri, c)] = d
-    for ri, (case, assign, allflag, modname, model_files, eff, codes, fails, raw, what) in enumerate(results):
+    for key, o in zip(owners, outs):
+        model_en[key] = dict(x.split("=", 1) for x in o.split(" ")) if o != "bad-op" else {"en": "bad-op", "spec": "bad-op"}
+    for ri, (case, assign, allflag, names, model_files, codes, per, asked, what) in enumerate(results):
         conforms = True
-        for c in codes:
-            d = model_en[(ri, c)]
+        for k, c, got in asked:
+            d = model_en[(ri, k, c)]
             ctx.corr("layers")
-            if d["en"] != str(int(eff[c])):
+            if d["en"] != str(int(got)):
                 conforms = False
-                ctx.disagree("layers", dict(case, code=c), "is_error_code_enabled(%s) = %s" % (c, eff[c]), "C11.enabledStack = %s" % d["en"])
-            ctx.corr("spec-layers")
-            want = str(int(oracle_enabled(assign.get(c, {}), allflag, dflt(c))))
-            if d["spec"] != want or d["en"] != d["spec"]:
-                ctx.disagree("spec-layers", dict(case, code=c), "python oracle %s" % want, "C11.specEnabled = %s, enabledStack = %s" % (d["spec"], d["en"]))
-        # the model's projection of the raw stream: first occurrences of the calls whose code the model switches on
-        seen, proj = set(), []
-        for r in raw:
-            k = (r["node"], r["code"] or r["msg"])
-            if r["cap"] or k in seen:
-                continue
-            if r["code"] is not None and model_en.get((ri, r["code"]), {}).get("en") != "1":
-                continue
-            seen.add(k)
-            if r["save"]:
-                proj.append((r["code"], r["line"], r["col"]))
-        ctx.corr("layers-projection")
-        if proj != [f[:3] for f in fails]:
-            conforms = False
-            ctx.disagree("layers-projection", case, show_fails(fails), show_fails(proj))
+                ctx.disagree("layers", dict(case, module=names[k], code=c), "for_module(%s).is_error_code_enabled(%s) = %s" % (names[k], c, got),
+                             "C11.enabledStack = %s" % d["en"])
+        for k in sorted(KINDS):
+            for c in codes:
+                d = model_en[(ri, k, c)]
+                ctx.corr("spec-layers")
+                want = str(int(oracle_enabled(assign.get(c, {}), allflag, dflt(c), k)))
+                if d["spec"] != want or d["en"] != d["spec"]:
+                    ctx.disagree("spec-layers", dict(case, module=names[k], code=c), "python oracle %s" % want,
+                                 "C11.specEnabled = %s, enabledStack = %s" % (d["spec"], d["en"]))
+        for k, name, fails, raw in per:
+            # the model's projection of the raw stream: first occurrences of the calls whose code the model switches on
+            seen, proj = set(), []
+            for r in raw:
+                key = (r["node"], r["code"] or r["msg"])
+                if r["cap"] or key in seen:
+                    continue
+                if r["code"] is not None and model_en.get((ri, k, r["code"]), {"en": "1"}).get("en") != "1":
+                    continue
+                seen.add(key)
+                if r["save"]:
+                    proj.append((r["code"], r["line"], r["col"]))
+            ctx.corr("layers-projection")
+            if proj != [f[:3] for f in fails]:
+                conforms = False
+                ctx.disagree("layers-projection", dict(case, module=name), show_fails(fails), show_fails(proj))
         if what:
             ctx.candidate(case, what, cls=None, conforms=conforms, stream="layers")
 
@@ -1370,13 +1533,24 @@ def replay_layers(ctx, L):
     global _NCV, _REC
     if _NCV is None:
         _NCV, _REC = _classes()
+    E = pya.ErrorCode
     dflt = lambda c: bool(ConfigOption.registry[c].default_value)
-    Dall = layers_run(ctx, ctx.rng, L["program"], {}, "E", L["route"], "base")[0]
-    fails = layers_run(ctx, ctx.rng, L["program"], L["assign"], L["all"], L["route"], "replay")[0]
-    exp = [d for d in Dall if oracle_enabled(L["assign"].get(d[0], {}), L["all"], dflt(d[0]))]
-    if sorted(fails, key=repr) != sorted(exp, key=repr):
-        ctx.candidate({"layers": L}, "reported %s, the precedence gives %s" % (sorted({d[0] for d in fails}), sorted({d[0] for d in exp})),
-                      cls=None, conforms=False, stream="layers")
+    kinds = tuple(L.get("modules", ["A"]))
+    Dall = layers_run(ctx, ctx.rng, L["program"], {}, "E", L["route"], "base")[0][0][2]
+    per, options, _, names = layers_run(ctx, ctx.rng, L["program"], L["assign"], L["all"], L["route"], "replay", kinds)
+    for k, name, fails, raw in per:
+        exp = [d for d in Dall if oracle_enabled(L["assign"].get(d[0], {}), L["all"], dflt(d[0]), k)]
+        if sorted(fails, key=repr) != sorted(exp, key=repr):
+            ctx.candidate({"layers": L}, "module %s: reported %s, the precedence gives %s" % (
+                name, sorted({d[0] for d in fails}), sorted({d[0] for d in exp})), cls=None, conforms=False, stream="layers")
+    pairs = [(k, c) for k in sorted(KINDS) for c in sorted({d[0] for d in Dall})] * 2
+    ctx.rng.shuffle(pairs)
+    for k, c in pairs:
+        got = bool(options.for_module(tuple(names[k].split("."))).is_error_code_enabled(getattr(E, c)))
+        if got != oracle_enabled(L["assign"].get(c, {}), L["all"], dflt(c), k):
+            ctx.candidate({"layers": L}, "one Options object: for_module(%s).is_error_code_enabled(%s) is %s" % (names[k], c, got),
+                          cls=None, conforms=False, stream="layers")
+            break
 
 
 def replay(ctx, data):
